@@ -33,8 +33,9 @@ RULE = (
     "from generation (CPython refuses Enum(n) on a member-less enum with TypeError before the "
     "library's fallback can act; 0 such cases are generated, they are outside what is exercised). "
     "Aliases (two names, one ordinal), bool ordinals and the functional API E('Name', names=...) "
-    "are not generated either. Values: a declared ordinal, a declared ordinal +-1/+-253, the "
-    "boundaries, 0..255, 0..64008, 0..4097152080, +-2^66, +-(2^63+k), True/False. Non-trivial: the "
+    "are not generated either. Values (each step picks one of): a declared ordinal (3/8), a declared "
+    "ordinal +-1/+-253 (1/8), or one of a pool of up to 10 other integers drawn for the case from the "
+    "boundaries, 0..255, 0..64008, 0..4097152080, +-2^66, +-(2^63+k), True/False (1/2). Non-trivial: the "
     "enum has >= 2 members and the sequence contains at least one declared and at least one "
     "undeclared value; distinct by (style, members, values). Sweeps: for 8 fixed enums and a few "
     "drawn ones (>= 2 members, at least one ordinal inside the range) every n in 0..64008 is "
@@ -314,16 +315,12 @@ _other = st.one_of(
     st.sampled_from(BOUNDS), st.integers(0, 12), st.integers(0, 255), st.integers(0, 64008),
     st.integers(0, 4097152080), st.integers(-(2 ** 66), 2 ** 66), _huge, st.booleans(),
 )
-# a construction is drawn as a token that is resolved against the drawn declaration, so that the
-# whole strategy is static: ("d", i) -> the i-th declared ordinal; ("n", i, delta) -> a neighbour
-# of it (usually undeclared); ("o", v) -> v itself (usually undeclared)
-_token = st.one_of(
-    st.tuples(st.just("d"), st.integers(0, 7)),
-    st.tuples(st.just("d"), st.integers(0, 7)),
-    st.tuples(st.just("n"), st.integers(0, 7), st.sampled_from([1, -1, 253, -253])),
-    st.tuples(st.just("o"), _other),
-    st.tuples(st.just("o"), _other),
-)
+# A construction is drawn as a small selector that is resolved against the drawn declaration, so
+# that the strategy is static and cheap: 0..11 -> a declared ordinal; 12..15 -> a neighbour of one
+# (+1, -1, +253, -253; usually undeclared); 16..31 -> an element of the separately drawn pool of
+# "other" integers (usually undeclared).
+_DELTAS = [1, -1, 253, -253]
+_selectors = st.integers(0, 31)
 
 
 def _raw_members(min_size):
@@ -335,14 +332,15 @@ def _raw_members(min_size):
 _seq_raw = st.tuples(
     st.sampled_from(["meta", "class"]),
     st.one_of(_raw_members(1), _raw_members(2), _raw_members(4)),
-    st.lists(_token, min_size=1, max_size=8),
-    st.lists(_token, min_size=0, max_size=8),
-    st.lists(_token, min_size=0, max_size=8),
+    st.lists(_other, min_size=0, max_size=10),
+    st.lists(_selectors, min_size=1, max_size=8),
+    st.lists(_selectors, min_size=0, max_size=8),
+    st.lists(_selectors, min_size=0, max_size=8),
 )
 
 
 def _resolve(raw):
-    style, raw_members, a, b, c = raw
+    style, raw_members, others, a, b, c = raw
     members, seen_names, seen_ords = [], set(), set()
     for i, o in raw_members:
         if i not in seen_names and o not in seen_ords:
@@ -351,13 +349,15 @@ def _resolve(raw):
             members.append([NAME_POOL[i], o])
     k = len(members)
     values = []
-    for t in a + b + c:
-        if t[0] == "d":
-            values.append(members[t[1] % k][1])
-        elif t[0] == "n":
-            values.append(members[t[1] % k][1] + t[2])
+    for sel in a + b + c:
+        if sel < 12:
+            values.append(members[sel % k][1])
+        elif sel < 16:
+            values.append(members[sel % k][1] + _DELTAS[sel - 12])
+        elif others:
+            values.append(others[(sel - 16) % len(others)])
         else:
-            values.append(t[1])
+            values.append(BOUNDS[sel - 16])
     return {"kind": "seq", "style": style, "members": members, "values": values}
 
 
